@@ -536,6 +536,10 @@ class _CompressionMiddleware:
                 title="Unsupported Content-Encoding",
                 description=f"Content-Encoding {content_encoding!r} is not supported by this server",
             )
+        if req_enc is Encoding.IDENTITY:
+            # "identity" means no transform was applied: neither unknown nor a
+            # codec that can be disabled, so it is not a 415.
+            return
         if req_enc not in self._decode:
             raise falcon.HTTPUnsupportedMediaType(
                 title="Unsupported Content-Encoding",
